@@ -124,7 +124,8 @@ Fixpoint kw_last (k : akey) (kw : kwargs) : option aval :=
   end.
 
 (** the most recent of the keyword arguments that write attribute [k]:
-    [k] itself, [exc_table] for [exc_db], [type_name] for [_explicit_type_name] *)
+    [k] itself, [exc_table] for [exc_db], [type_name] for [_explicit_type_name],
+    [protocol] and [p] for [prot] *)
 Fixpoint requested (k : akey) (kw : kwargs) : option aval :=
   match kw with
   | [] => None
@@ -134,6 +135,7 @@ Fixpoint requested (k : akey) (kw : kwargs) : option aval :=
     | None =>
       if (k' <? 0) || (k' =? K_EXPLICIT_TN) then None
       else if k' =? K_TYPE_NAME then (if k =? K_EXPLICIT_TN then Some (VBool true) else None)
+      else if (k' =? K_PROTOCOL) || (k' =? K_P) then (if k =? K_PROT then Some v else None)
       else if k' =? K_EXC_TABLE then (if (k =? K_EXC_TABLE) || (k =? K_EXC_DB) then Some v else None)
       else if (k' =? K_MAX_OCCURS) && is_unbounded v then (if k =? K_MAX_OCCURS then Some VInf else None)
       else if k =? k' then Some v else None
@@ -160,9 +162,31 @@ Fixpoint remove_key (k : text) (l : list text) : list text :=
 
 Definition keys {V} (l : list (text * V)) : list text := map fst l.
 
+(** * the alias table of a class: the keys, other than the field names, under
+    which its (flat) fields are written and read -- sub_name / sub_ns of the
+    field types; a function of the flat field table (get_flat_type_info(cls).alt) *)
+Definition alias_of (ns name : option aval) (k : fname) : option text :=
+  let none x := match x with None | Some VNone => true | _ => false end in
+  match ns, name with
+  | Some (VStr n), Some (VStr m) => Some ([123] ++ n ++ [125] ++ m)
+  | Some (VStr n), _ => if none name then Some ([123] ++ n ++ [125] ++ k) else None
+  | _, Some (VStr m) => if none ns then Some m else None
+  | _, _ => None
+  end.
+Fixpoint alias_list (res : cid -> akey -> option aval) (fl : list (fname * cid)) : list (text * fname) :=
+  match fl with
+  | [] => []
+  | (k, t) :: r => match alias_of (res t K_SUB_NS) (res t K_SUB_NAME) k with
+                   | Some a => (a, k) :: alias_list res r
+                   | None => alias_list res r
+                   end
+  end.
+Definition alias_table (s : store) (c : cid) : list (text * fname) := alias_list (resolve s) (flat s c).
+
 (** * what "observably unchanged" means for class [c] between two stores: the
     same record, the same structural snapshot at every depth, the same resolved
-    attributes, type name, parent, flat field table and validation verdicts *)
+    attributes, type name, parent, flat field table, validation verdicts and
+    alias table *)
 Definition same_view (s s' : store) (c : cid) : Prop :=
   lookup s' c = lookup s c /\
   (forall d, obs d s' c = obs d s c) /\
@@ -170,7 +194,8 @@ Definition same_view (s s' : store) (c : cid) : Prop :=
   get_tname s' c = get_tname s c /\
   get_extends s' c = get_extends s c /\
   flat s' c = flat s c /\
-  verdicts s' c = verdicts s c.
+  verdicts s' c = verdicts s c /\
+  alias_table s' c = alias_table s c.
 
 (** class [x] has field [k], of a type whose root is [R] *)
 Definition has (s : store) (x : cid) (k : fname) (R : cid) : Prop :=
